@@ -68,7 +68,7 @@ def gen_case(seed, idx):
     horizon = rng.choice([400, 1000, 2500, 4000, 12000])
     return {
         "seed": seed, "idx": idx, "acts": sorted(acts, key=lambda a: a["t"]), "horizon": horizon,
-        "maxdelay": rng.choice([0, 5, 30]), "peer_period": rng.choice([37, 150, 410]), "peer_tc": rng.random() < 0.5,
+        "maxdelay": rng.choice([0, 5, 30]), "peer_period": rng.choice([37, 150, 410]), "peer_tc": rng.random() < 0.5, "peer_tc_pause": rng.random() < 0.6,
         "close_pick": rng.random(), "close_jitter": rng.choice([0, 0, 0, 1, -1, 7]),
         "late_action": rng.choice([None, None, "register", "browse-tracked", "browse-untracked", "lookup"]), "late_at": rng.choice([0, 1, 60, 124, 126, 249, 250]),
         "second_close_after": rng.choice([5, 100, 600000]), "tail": rng.choice([20000, 7200000, 14400000]),
@@ -329,6 +329,10 @@ def simulate(case, close_at, want_blocks=True):
                 if k % 5 == 0:
                     out.add_question(DNSQuestion("s1." + TA, const._TYPE_SRV, const._CLASS_IN))
                 zb.async_send(out)
+                if case["peer_tc"] and k % 3 == 0 and case.get("peer_tc_pause"):
+                    # the peer falls silent after a truncated query: nothing else arrives from its address, so A's deferral
+                    # timer (400-500 ms) really fires -- otherwise the next query from the address answers the deferred one
+                    await sim.sleep_ms(560)
                 if sim.now() - t_start > case["horizon"] + 40000:
                     await sim.sleep_ms(600000)   # slow down for the long tail
 
@@ -343,6 +347,10 @@ def simulate(case, close_at, want_blocks=True):
         if close_at is None:
             await sim.sleep_ms(case["horizon"] + 300)
             obs["block_times"] = sorted({e["t"] - t_start for e in sim.events if e["t"] >= t_start})
+            # when A's deferred-truncated-query timers fired, and when its aggregation queues were flushed
+            peer_ = set(obs.get("peer_oids", []))
+            obs["tc_times"] = sorted({e["t"] - t_start for e in sim.events if e["t"] >= t_start and e["kind"] == "tc.respond" and e.get("obj") not in peer_})
+            obs["outq_times"] = sorted({e["t"] - t_start for e in sim.events if e["t"] >= t_start and e["kind"] == "outq.ready" and e.get("obj") not in peer_})
             ptask.cancel()
             stask.cancel()
             for x in bg:
@@ -917,7 +925,16 @@ def close_lines(obs):
     return [line], info
 
 
-def pick_close_time(case, times):
+def pick_close_time(case, times, tc_times=(), outq_times=()):
+    # one case in four aims at a timer that outlives the close: the close is called while a truncated query is deferred (its
+    # timer fires 1 .. 399 ms later, i.e. while the close is in its goodbye phase or after it returned), or while answers wait
+    # in an aggregation queue
+    if case["close_pick"] < 0.25:
+        pool = [t for t in tc_times if t <= case["horizon"]] or [t for t in outq_times if t <= case["horizon"]]
+        if pool:
+            k = int(case["close_pick"] / 0.25 * len(pool) * 4)
+            t = pool[(k // 4) % len(pool)]
+            return max(0, t - [1, 60, 260, 399][k % 4])
     if not times:
         return 0
     if case["close_pick"] < 0.85:
@@ -932,7 +949,7 @@ def run_case(res, case, ctx, acc):
         close_at = 0
     dry = simulate(case, None) if close_at is None else None
     if close_at is None:
-        close_at = pick_close_time(case, [t for t in dry["block_times"] if t <= case["horizon"]])
+        close_at = pick_close_time(case, [t for t in dry["block_times"] if t <= case["horizon"]], dry.get("tc_times", ()), dry.get("outq_times", ()))
     obs = simulate(case, close_at)
     res.evaluations += 1
     for a in case["acts"]:
